@@ -659,6 +659,8 @@ class Interp:
         if r is None:
             if name in self.builtins:
                 return self.builtins[name]
+            if name == "__debug__":
+                return True              # (the checks describe the package as run without -O)
             if name in ("__name__", "__package__"):
                 pkg = "periodictable"
                 return pkg if module == "__init__" or name == "__package__" else f"{pkg}.{module}"
@@ -1722,6 +1724,10 @@ class Interp:
             if fn_frame is None or "$self" not in fn_frame.vars:
                 raise AnalysisError(f"super() outside a method ({f.qual})")
             return SuperVal(fn_frame.cls, fn_frame.vars["$self"])
+        # x.method(args) on a local container: evaluating the arguments may join branches (states are copied at a join), so the
+        # container is looked up again afterwards and the call lands in the live object
+        base0 = self.eval(n.func.value, f) if isinstance(n.func, ast.Attribute) and isinstance(n.func.value, ast.Name) \
+            and (n.args or n.keywords) else None
         fn = self.eval(n.func, f)
         if isinstance(fn, Builtin) and fn.name == "eval":
             # eval of a *concrete* string: parsed and evaluated in the calling scope by this interpreter
@@ -1754,6 +1760,10 @@ class Interp:
                 kwargs.update(d)
             else:
                 kwargs[k.arg] = self.eval(k.value, f)
+        if isinstance(base0, (list, dict, set)):
+            base1 = self.eval(n.func.value, f)
+            if base1 is not base0 and type(base1) is type(base0):
+                fn = self.getattr(base1, n.func.attr)
         return self.call(fn, args, kwargs)
 
     def _comp(self, n, f, emit):
